@@ -1,8 +1,9 @@
 (** Extraction of the executable model to OCaml ([ExtrOcamlBasic] only). *)
 From Coq Require Import ExtrOcamlBasic NArith String.
-From DC Require Import Ts.
+From DC Require Import Ts Hlc.
 Extraction Language OCaml.
 Extraction "model.ml"
   N.add N.mul N.sub N.div N.modulo N.ltb N.leb N.eqb N.of_nat N.to_nat
   pack ts_new ts_node ts_counter ts_seconds ts_fractional ts_tick mk_ts
-  to_le8 of_le8 show parse legacy_parse.
+  to_le8 of_le8 show parse legacy_parse
+  send recv hlc_run clock_run.
